@@ -359,6 +359,13 @@ static void phpe_dec_print(const bn_t c) {
 	bn_t m; bn_null(m); bn_new(m);
 	RLC_TRY { rc = cp_phpe_dec(m, c, ph_prv); } RLC_CATCH_ANY { caught = 1; }
 	if (take_err() || caught || rc != RLC_OK) fprintf(OUT, "err"); else hexbn(m);
+	/* the same decryption with the output over the input must give the same answer */
+	{
+		int rc2 = RLC_ERR, caught2 = 0; bn_t t; bn_null(t); bn_new(t); bn_copy(t, c);
+		RLC_TRY { rc2 = cp_phpe_dec(t, t, ph_prv); } RLC_CATCH_ANY { caught2 = 1; }
+		int bad2 = take_err() || caught2 || rc2 != RLC_OK, bad1 = caught || rc != RLC_OK;
+		if (bad1 != bad2 || (!bad1 && bn_cmp(t, m) != RLC_EQ)) { fprintf(OUT, " IN-PLACE-DIFFERS("); if (bad2) fprintf(OUT, "err"); else hexbn(t); fprintf(OUT, ")"); }
+	}
 }
 
 /* phpe_enc <seed> <m> */
@@ -420,6 +427,12 @@ static void ghpe_dec_print(const bn_t c, int s) {
 	bn_t m; bn_null(m); bn_new(m);
 	RLC_TRY { rc = cp_ghpe_dec(m, c, gh_pub, gh_prv, s); } RLC_CATCH_ANY { caught = 1; }
 	if (take_err() || caught || rc != RLC_OK) fprintf(OUT, "err"); else hexbn(m);
+	{
+		int rc2 = RLC_ERR, caught2 = 0; bn_t t; bn_null(t); bn_new(t); bn_copy(t, c);
+		RLC_TRY { rc2 = cp_ghpe_dec(t, t, gh_pub, gh_prv, s); } RLC_CATCH_ANY { caught2 = 1; }
+		int bad2 = take_err() || caught2 || rc2 != RLC_OK, bad1 = caught || rc != RLC_OK;
+		if (bad1 != bad2 || (!bad1 && bn_cmp(t, m) != RLC_EQ)) { fprintf(OUT, " IN-PLACE-DIFFERS("); if (bad2) fprintf(OUT, "err"); else hexbn(t); fprintf(OUT, ")"); }
+	}
 }
 
 /* ghpe_enc <seed> <s> <m> */
@@ -493,6 +506,12 @@ static void shpe_dec_print(const bn_t c) {
 	bn_t m; bn_null(m); bn_new(m);
 	RLC_TRY { rc = cp_shpe_dec(m, c, sh_prv); } RLC_CATCH_ANY { caught = 1; }
 	if (take_err() || caught || rc != RLC_OK) fprintf(OUT, "err"); else hexbn(m);
+	{
+		int rc2 = RLC_ERR, caught2 = 0; bn_t t; bn_null(t); bn_new(t); bn_copy(t, c);
+		RLC_TRY { rc2 = cp_shpe_dec(t, t, sh_prv); } RLC_CATCH_ANY { caught2 = 1; }
+		int bad2 = take_err() || caught2 || rc2 != RLC_OK, bad1 = caught || rc != RLC_OK;
+		if (bad1 != bad2 || (!bad1 && bn_cmp(t, m) != RLC_EQ)) { fprintf(OUT, " IN-PLACE-DIFFERS("); if (bad2) fprintf(OUT, "err"); else hexbn(t); fprintf(OUT, ")"); }
+	}
 }
 
 /* shpe_enc <pub|prv> <seed> <m> */
